@@ -132,13 +132,7 @@ def astype(x, t, *a, **k):
         out = _np.empty(x.shape, dtype=object)
         out.flat = [cast_scalar(e, t) for e in x.flat]
         return out.view(type(x)) if type(x) is not _np.ndarray else out
-    if isinstance(x, _np.ndarray) and x.dtype == object and Mode.symbolic and _is_numeric_dtype(t):
-        # concrete numbers inside an object array: cast but stay object (symbols may be written later)
-        kind = _np.dtype(t).kind
-        out = _np.empty(x.shape, dtype=object)
-        out.flat = [cast_scalar(e, t) for e in x.flat]
-        return out.view(type(x)) if type(x) is not _np.ndarray else out
-    return x.astype(t, *a, **k)
+    return x.astype(t, *a, **k)    # no symbol inside: numpy's own cast (object arrays of concrete numbers become native again)
 
 
 def _lin_norm(x, ord=None, axis=None, keepdims=False):
